@@ -2062,6 +2062,264 @@ def inline_cross_module_helpers(trees, known, counter):
     return done
 
 
+# ---------------------------------------------------------------------------------------------- thread-pool context managers
+def _is_cm_decorator(d):
+    return (isinstance(d, ast.Name) and d.id == "contextmanager") or (isinstance(d, ast.Attribute) and d.attr == "contextmanager")
+
+
+def _thread_creating_defs(tree):
+    """Names of the module-level functions of `tree` that (transitively, through calls by plain name inside the module)
+    construct a threading.Thread."""
+    thread_names, mod_aliases = set(), set()
+    for st in tree.body:
+        if isinstance(st, ast.ImportFrom) and st.module == "threading":
+            thread_names |= {(a.asname or a.name) for a in st.names if a.name == "Thread"}
+        if isinstance(st, ast.Import):
+            mod_aliases |= {(a.asname or a.name) for a in st.names if a.name == "threading"}
+    defs = {x.name: x for x in tree.body if isinstance(x, ast.FunctionDef)}
+    direct, calls = set(), {}
+    for name, d in defs.items():
+        cs = set()
+        for n in ast.walk(d):
+            if isinstance(n, ast.Call):
+                f = n.func
+                if isinstance(f, ast.Name):
+                    cs.add(f.id)
+                    if f.id in thread_names:
+                        direct.add(name)
+                elif isinstance(f, ast.Attribute) and f.attr == "Thread" and isinstance(f.value, ast.Name) and f.value.id in mod_aliases:
+                    direct.add(name)
+        calls[name] = cs
+    out = set(direct)
+    changed = True
+    while changed:
+        changed = False
+        for name, cs in calls.items():
+            if name not in out and cs & out:
+                out.add(name)
+                changed = True
+    return out, defs
+
+
+def _escaping_jumps(stmts):
+    """Does this statement list contain a return / yield, or a break / continue that leaves it?"""
+    def rec(lst, in_loop):
+        for st in lst:
+            if isinstance(st, _FUNC_NODES + (ast.ClassDef,)):
+                continue
+            if isinstance(st, ast.Return):
+                return True
+            if isinstance(st, (ast.Break, ast.Continue)) and not in_loop:
+                return True
+            for x in _shallow_walk(st):
+                if isinstance(x, (ast.Yield, ast.YieldFrom, ast.Await)):
+                    return True
+            loop = in_loop or isinstance(st, (ast.For, ast.While, ast.AsyncFor))
+            for f in ("body", "orelse", "finalbody"):
+                sub = getattr(st, f, None)
+                if isinstance(sub, list) and sub and isinstance(sub[0], ast.stmt):
+                    if rec(sub, loop if f == "body" else in_loop):
+                        return True
+            for h in getattr(st, "handlers", []) or []:
+                if rec(h.body, in_loop):
+                    return True
+            for c in getattr(st, "cases", []) or []:
+                if rec(c.body, in_loop):
+                    return True
+        return False
+    return rec(stmts, False)
+
+
+_WITH_BODY = "__with_body__"
+_WITH_AS = "__with_as__"
+
+
+def _generator_as_template(g):
+    """Copy of the generator context manager `g` as a plain def in which its single `yield [v]` statement is replaced by
+    `__with_as__ = v` followed by the placeholder statement `__with_body__`; None if `g` is not of that simple form."""
+    ys = [n for n in iter_own(list(g.body)) if isinstance(n, (ast.Yield, ast.YieldFrom))]
+    if len(ys) != 1 or not isinstance(ys[0], ast.Yield):
+        return None
+    if any(isinstance(n, ast.Return) for n in iter_own(list(g.body))):
+        return None
+    h = copy.deepcopy(g)
+    h.decorator_list = []
+    found = []
+
+    def rec(lst, in_loop):
+        for i, st in enumerate(lst):
+            if isinstance(st, _FUNC_NODES + (ast.ClassDef,)):
+                continue
+            if isinstance(st, ast.Expr) and isinstance(st.value, ast.Yield):
+                if in_loop:
+                    raise _Bail("yield inside a loop")
+                v = st.value.value if st.value.value is not None else ast.Constant(None)
+                lst[i:i + 1] = [_loc(ast.Assign(targets=[ast.Name(id=_WITH_AS, ctx=ast.Store())], value=v), st),
+                                _loc(ast.Expr(value=ast.Name(id=_WITH_BODY, ctx=ast.Load())), st)]
+                found.append(st)
+                return
+            loop = in_loop or isinstance(st, (ast.For, ast.While, ast.AsyncFor))
+            for f in ("body", "orelse", "finalbody"):
+                sub = getattr(st, f, None)
+                if isinstance(sub, list) and sub and isinstance(sub[0], ast.stmt):
+                    rec(sub, loop)
+                    if found:
+                        return
+            for hd in getattr(st, "handlers", []) or []:
+                rec(hd.body, in_loop)
+                if found:
+                    return
+    try:
+        rec(h.body, False)
+    except _Bail:
+        return None
+    if not found:
+        return None  # the yield is not a statement of its own
+    return h
+
+
+def inline_thread_pool_withs(trees):
+    """`with pool(args) [as x]: BODY`, where `pool` is a module-level @contextmanager generator function of the same module
+    that starts threads (a worker pool), is replaced by the generator's body with BODY in the place of its single `yield`
+    (arguments substituted, the generator's locals renamed).  This is what contextlib executes: the code before the yield
+    is __enter__, an exception of BODY is raised at the yield (so the generator's try/finally/except suites see it), the
+    code after it is __exit__.  The thread life cycle - start, release, join - of the engine is then one function, and the
+    rules state it as paths of that function wherever the code on disk draws the line between the two.
+    Not done when BODY leaves by return / break / continue (contextlib then resumes the generator normally, an inlined
+    try/finally would not run the code after the yield), when the yield is in a loop or is not a statement, or when a free
+    name of the generator is shadowed at the site.  Returns the number of with statements replaced."""
+    done = 0
+    own_pools = {}
+    for name, tree in trees.items():
+        creating, defs = _thread_creating_defs(tree)
+        own_pools[name] = {n: d for n, d in defs.items() if n in creating and any(_is_cm_decorator(x) for x in d.decorator_list)}
+    for name, tree in trees.items():
+        pools = dict(own_pools[name])
+        # a pool defined in another module of the package and imported by name: its free names must mean the same here
+        # (imports it needs are added; a name that is bound differently here blocks the inlining)
+        bbind = None
+        for st in list(tree.body):
+            if not (isinstance(st, ast.ImportFrom) and st.level == 0 and st.module in own_pools):
+                continue
+            for al in st.names:
+                g = own_pools[st.module].get(al.name)
+                local = al.asname or al.name
+                if g is None or local in pools:
+                    continue
+                import builtins as _b
+                abind = _module_bindings(trees[st.module])
+                bbind = _module_bindings(tree) if bbind is None else bbind
+                extra, ok = [], True
+                for fv in sorted(free_names(g)):
+                    if hasattr(_b, fv):
+                        continue
+                    src = abind.get(fv)
+                    if src is None:
+                        ok = False
+                        break
+                    want = src if src[0] in ("from", "import") else ("from", st.module, fv)
+                    have = bbind.get(fv)
+                    if have == want:
+                        continue
+                    if have is not None:
+                        ok = False
+                        break
+                    if want[0] == "from":
+                        extra.append(ast.ImportFrom(module=want[1], names=[ast.alias(name=want[2], asname=fv if fv != want[2] else None)], level=0))
+                    else:
+                        extra.append(ast.Import(names=[ast.alias(name=want[1], asname=fv if fv != want[1] else None)]))
+                    bbind[fv] = want
+                if not ok:
+                    continue
+                idx_ = tree.body.index(st)
+                tree.body[idx_ + 1:idx_ + 1] = [_loc(x, st) for x in extra]
+                pools[local] = g
+        if not pools:
+            continue
+        counter = itertools.count(5000)
+        for _round in range(4):
+            changed = False
+            for owner, field, lst in list(stmt_lists(tree)):
+                if any(owner is x for d in pools.values() for x in ast.walk(d)):
+                    continue
+                for idx, st in enumerate(lst):
+                    if not isinstance(st, ast.With):
+                        continue
+                    hit = [i for i, it in enumerate(st.items) if _call_of(it.context_expr, set(pools))]
+                    if not hit:
+                        continue
+                    i = hit[0]
+                    it = st.items[i]
+                    g = pools[it.context_expr.func.id]
+                    body = st.body if i == len(st.items) - 1 else [_loc(ast.With(items=st.items[i + 1:], body=st.body), st)]
+                    if _escaping_jumps(body):
+                        continue
+                    h = _generator_as_template(g)
+                    if h is None or not inlinable_def(h):
+                        continue
+                    between = _scopes_between(tree, lst)
+                    if any(not isinstance(sc, _FUNC_NODES) for sc in between):
+                        continue
+                    shadow = set()
+                    for sc in between:
+                        shadow |= bound_names(sc)
+                    if (free_names(h) - {_WITH_BODY}) & shadow:
+                        continue
+                    try:
+                        stmts, _res = Inliner(counter).expand(h, it.context_expr, False)
+                    except _Bail:
+                        continue
+                    # put BODY (and the `as` binding) in the place of the placeholder
+                    placed = []
+
+                    def place(sl):
+                        for j, x in enumerate(sl):
+                            if isinstance(x, ast.Expr) and isinstance(x.value, ast.Name) and x.value.id == _WITH_BODY:
+                                pre = sl[j - 1]
+                                if it.optional_vars is not None:
+                                    sl[j - 1] = _loc(ast.Assign(targets=[it.optional_vars], value=pre.value), pre)
+                                    sl[j:j + 1] = body
+                                elif isinstance(pre.value, ast.Constant):
+                                    sl[j - 1:j + 1] = body
+                                else:
+                                    sl[j - 1] = _loc(ast.Expr(value=pre.value), pre)
+                                    sl[j:j + 1] = body
+                                placed.append(1)
+                                return
+                            for f in ("body", "orelse", "finalbody"):
+                                sub = getattr(x, f, None)
+                                if isinstance(sub, list) and sub and isinstance(sub[0], ast.stmt):
+                                    place(sub)
+                                    if placed:
+                                        return
+                            for hd in getattr(x, "handlers", []) or []:
+                                place(hd.body)
+                                if placed:
+                                    return
+                    place(stmts)
+                    if not placed:
+                        continue
+                    new = stmts if i == 0 else [_loc(ast.With(items=st.items[:i], body=stmts), st)]
+                    lst[idx:idx + 1] = new
+                    done += 1
+                    # a callback the site handed to the pool (a closure of the enclosing function) is now called in place
+                    if between:
+                        fn_ = between[-1]
+                        cands = [x for x in fn_.body if isinstance(x, ast.FunctionDef)]
+                        if cands:
+                            inline_helpers(fn_, cands, counter)
+                    changed = True
+                    break
+                if changed:
+                    break
+            if not changed:
+                break
+        if done:
+            ast.fix_missing_locations(tree)
+    return done
+
+
+
 # ---------------------------------------------------------------------------------------------- delegating methods
 def inline_delegating_methods(trees):
     """`def _m(self, p=d, **kw): return F(<self.attr ...>, p, **kw)` - a private method whose whole body hands its parameters on
@@ -2267,6 +2525,11 @@ def canonicalise(trees, level, known_funcs=None):
             if n_mod:
                 n_inl += inline_closures(tree, counter)
                 n_st += scalarise_state_objects(tree)
+        n_pool = inline_thread_pool_withs({name: tree})
+        if n_pool:
+            # callbacks handed to the pool are closures of the engine that are now called in place
+            n_inl += inline_closures(tree, counter) + n_pool
+            n_st += scalarise_state_objects(tree)
         n_rec = destructure_record_results(tree)
         mt.changed += sink_flag_tests(tree)
         n_alias = eliminate_aliases(tree) if (n_inl or n_st or n_obj or n_mod or n_rec) else 0
